@@ -63,6 +63,23 @@ def add_new_files(a, fs, rng, d, res):
     res["counters"]["copies_onto_trigger_disk"] = res["counters"].get("copies_onto_trigger_disk", 0) + n
 
 
+def lock_held(path):
+    """True when some process holds a flock on path (read from /proc/locks: the harness never touches the lock itself)."""
+    try:
+        st = os.stat(path)
+    except OSError:
+        return False
+    want = "%02x:%02x:%d" % (os.major(st.st_dev), os.minor(st.st_dev), st.st_ino)
+    try:
+        with open("/proc/locks") as f:
+            for line in f:
+                if "FLOCK" in line and want in line.split():
+                    return True
+    except OSError:
+        pass
+    return False
+
+
 def run_case(case):
     seed, idx, tier = case
     rng = random.Random("c14-%d-%d" % (seed, idx))
@@ -206,23 +223,36 @@ def run_case(case):
                     holder = {}
 
                     def run_first():
-                        holder["r"] = a.cmd(first[0], *first[1], variant="plain", shim={"plan": "%s:n=%d:delay=1500" % (opn, ncall)})
+                        holder["r"] = a.cmd(first[0], *first[1], variant="plain", shim={"plan": "%s:n=%d:delay=2500" % (opn, ncall)}, timeout=180)
                     before = cp_snapshot(a)
                     # snapshot must exclude what the *first* command legitimately changes: use a read-only first command for the byte check
+                    lockfile = a.cpaths()[0] + ".lock"
                     th = threading.Thread(target=run_first)
                     th.start()
-                    time.sleep(0.5)
+                    # no wall-clock assumptions: wait until the first command is seen holding the lock ...
+                    t_end = time.time() + 60
+                    while time.time() < t_end and th.is_alive() and not lock_held(lockfile):
+                        time.sleep(0.02)
+                    held_before = lock_held(lockfile)
                     second = rng.choice(["sync", "scrub", "fix", "check", "status", "diff", "list", "touch", "rehash"])
                     # Array.cmd is not re-entrant on logn: run the second by hand
                     exe = __import__("vf.build", fromlist=["x"]).snapraid("plain")
                     lg = os.path.join(a.root, "logs", "second.log")
                     p2 = subprocess.run([exe, "-c", a.conf] + A.BASE_OPTS + ["-l", lg, second], stdout=subprocess.PIPE, stderr=subprocess.PIPE, cwd=a.root)
+                    # ... and is still holding it when the second command has ended: only then the two runs overlapped for sure
+                    held_after = lock_held(lockfile) and th.is_alive()
                     th.join()
                     res["counters"]["lock_pairs"] = res["counters"].get("lock_pairs", 0) + 1
                     rep = {"case": list(case), "cfg": cfg, "trigger": trig, "first": [first[0]] + first[1], "second": second, "delay_at": ncall}
                     inj = shimlog.injected(shimlog.parse(holder["r"].events)) if holder.get("r") else []
                     if not inj:
                         res["counters"]["lock_delay_not_fired"] = res["counters"].get("lock_delay_not_fired", 0) + 1
+                    elif not held_before:
+                        # the first command was delayed for 2.5 s inside its run (the shim confirms it) and was polled every 20 ms
+                        V.append(("lock-never-taken", "%s %s ran (delay rule fired) without ever holding a lock on %s" %
+                                  (first[0], first[1], os.path.basename(lockfile)), rep))
+                    elif not held_after:
+                        res["counters"]["lock_overlap_unconfirmed"] = res["counters"].get("lock_overlap_unconfirmed", 0) + 1
                     elif p2.returncode == 0 or b"already in use" not in p2.stderr:
                         V.append(("lock-not-enforced", "%s started while %s %s was running: rc=%s stderr=%s" %
                                   (second, first[0], first[1], p2.returncode, p2.stderr[-200:].decode("latin-1")), rep))
